@@ -27,7 +27,7 @@ def run(rep, tier, seed, model_ok=True, effort=1):
     from . import impl
     from bumpver import version
     r = common.rng(seed, "c08")
-    nhist = (14 if tier == "quick" else 150) * effort
+    nhist = (14 if tier == "quick" else 500) * effort
     rep.rule = ("histories of 1..12 invocations in real git repositories over generated projects: committing updates with flag sets and non-decreasing dates, "
                 "failing invocations, --no-commit and --no-tag-commit runs, branch switches and unrelated commits; after every successful update: config version "
                 "= announced version = every configured occurrence = `show`; with tagging the newest tag; strictly greater than before; exactly one new commit "
@@ -106,7 +106,7 @@ def run(rep, tier, seed, model_ok=True, effort=1):
                         cur = shown      # the config value of the branch that is checked out now
                     trace.append("OBranch")
                     continue
-                date = date + dt.timedelta(days=(0 if s == 0 else 40) if same_day else r.choice([0, 1, 31, 400]))
+                date = rwgen.avoid_week53(spec["vp"], date + dt.timedelta(days=(0 if s == 0 else 40) if same_day else r.choice([0, 1, 31, 400])))
                 args = ["update", "--no-fetch", "--date", date.isoformat()] + spec["flags"]
                 if op == "fail":
                     args += r.choice([["--set-version", cur], ["--tag", "nonsense"], ["--pin-date"]])
